@@ -97,7 +97,7 @@ func C20(p *ir.Program, r *report.R) {
 				continue
 			}
 			n++
-			c.Guards("evm.(*Contract).UseGas", "subtract", s.Instr, G{"enough-gas", "le(gas,c.Gas)"})
+			c.GuardsS("evm.(*Contract).UseGas", "subtract", s, G{"enough-gas", "le(gas,c.Gas)"})
 			r.Check("K6", "evm.(*Contract).UseGas/subtract/amount", p.InstrPos(s.Instr), ir.Render(s.Val) == "(c.Gas - gas)", "subtracts exactly the charged amount: "+ir.Render(s.Val))
 		}
 		c.MustFind("K6", "evm.(*Contract).UseGas/subtract", ug, n, "store to c.Gas")
